@@ -26,7 +26,10 @@ const (
 )
 
 func init() {
-	v1.WellKnownLabels.Insert(FamKey, GenKey)
+	// what a cloud provider does in its package init
+	v1.WellKnownLabels.Insert(FamKey, GenKey, v1alpha1.LabelReservationID)
+	cloudprovider.ReservationIDLabel = v1alpha1.LabelReservationID
+	cloudprovider.ReservedCapacityLabels.Insert(v1alpha1.LabelReservationID)
 }
 
 // OfSpec / ITSpec are the harness's own description of a catalog; oracles read these, never the provider objects.
@@ -93,6 +96,9 @@ func BuildCatalog(specs []ITSpec) []*cloudprovider.InstanceType {
 				lbl[cloudprovider.ReservationIDLabel] = o.RID
 			}
 			of := &cloudprovider.Offering{Requirements: scheduling.NewLabelRequirements(lbl), Price: o.Price, Available: o.Available, ReservationCapacity: o.ResCap}
+			if o.RID == "" {
+				of.Requirements.Add(scheduling.NewRequirement(cloudprovider.ReservationIDLabel, corev1.NodeSelectorOpDoesNotExist))
+			}
 			if o.OverCPU != 0 {
 				of.CapacityOverride = corev1.ResourceList{corev1.ResourceCPU: resource.MustParse(fmt.Sprint(o.OverCPU))}
 			}
